@@ -432,7 +432,8 @@ def h_for_equation(eng):
     log = []
     gm, cas = install_loops(eng, log)
     A = AstFactory(eng)
-    nk, nfree = eng.choice(4), eng.choice(3)
+    wide = getattr(eng, "tier", "quick") == "thorough"
+    nk, nfree = eng.choice(6 if wide else 4), eng.choice(5 if wide else 3)
     eng.input("indexed_symbols", nk)
     eng.input("free_symbols", nfree)
     fx = _loop_fixture(eng, gm, cas, A, nk, nfree, False)
